@@ -33,7 +33,9 @@ def grid_case(draw):
     lo = est.min_nfft(row, N, p)
     nfft = draw(gen.nfft_at_least(lo, hi_mult=3))
     return {"row": row, "x": x, "params": p, "nfft": nfft, "c": draw(st.sampled_from([2, 3, 4, 5])),
-            "off": draw(est.flag_forms)}     # how "frequency scaling off" is spelled
+            "off": draw(est.flag_forms),     # how "frequency scaling off" is spelled
+            # one case in six: the objects are built with scaling on, read once, and scaling is then switched off
+            "toggle": draw(st.integers(0, 5)) == 5}
 
 
 def common(pa, pb, c):
@@ -52,9 +54,17 @@ def c05_grid(ctx, case):
     sig = {"row": row, "datatype": "real" if real else "complex", "parity": nfft % 2}
     ctx.sig_on_exception = sig
     off = est.flag(False, case.get("off", "py"))
-    a = est.build(row, x, p, NFFT=nfft, scale_by_freq=off)
+    if case.get("toggle"):
+        a = est.build(row, x, p, NFFT=nfft, scale_by_freq=True)
+        b = est.build(row, x, p, NFFT=nfft * c, scale_by_freq=True)
+        _ = a.psd, b.psd
+        a.scale_by_freq = off
+        b.scale_by_freq = off
+        ctx.cls("scaling switched off on a computed object")
+    else:
+        a = est.build(row, x, p, NFFT=nfft, scale_by_freq=off)
+        b = est.build(row, x, p, NFFT=nfft * c, scale_by_freq=off)
     pa = np.real(est.psd_of(a))
-    b = est.build(row, x, p, NFFT=nfft * c, scale_by_freq=off)
     pb = np.real(est.psd_of(b))
     ctx.cls(row, "real" if real else "complex", "odd" if nfft % 2 else "even", "c=%d" % c,
             "NFFT<N" if nfft < len(x) else "NFFT>=N")
@@ -101,13 +111,18 @@ def c05_magic(ctx, case):
 # ---- very long grids -------------------------------------------------------------------------------------------------------
 @st.composite
 def bigfft_case(draw):
-    row = draw(st.sampled_from(MAGIC_ROWS + ("Periodogram", "pcorrelogram", "mtm_unity")))
+    row = draw(st.sampled_from(MAGIC_ROWS + ("Periodogram", "pcorrelogram", "mtm_unity", "mtm_eigen")))
     cplx = draw(st.booleans())
     x = draw(gen.signal(n=draw(st.integers(64, 256)), dtype="complex" if cplx else "real", kinds=("tones", "tones", "ar", "noise"),
                         noise_levels=(0.003, 0.01, 0.1), units=False))     # (no noiseless kind: a pole on the circle makes 1/psi rounding noise)
     x = est.sanitize(row, x)
     p = draw(est.params(row, x["n"], cplx))
     pair = draw(st.sampled_from([[16384, 2], [32768, 2], [10923, 3], [8192, 4], [21845, 3]]))
+    if row.startswith("mtm_") or draw(st.integers(0, 9)) == 9:
+        # a quarter of a million points; for the multitaper rows with 5..7 tapers (k NFFT beyond 2**20 work-array elements)
+        pair = draw(st.sampled_from([[131072, 2], [131072, 2], [100000, 3], [65536, 2]]))
+        if row.startswith("mtm_"):
+            p = {"NW": 4.0, "k": draw(st.integers(5, 7))}
     return {"row": row, "x": x, "params": p, "nfft": pair[0], "c": pair[1]}
 
 
